@@ -246,6 +246,10 @@ func c12Run(w *c12World) (Res, *c12Repo) {
 }
 
 func runC12(ctx *Ctx) {
+	if ctx.Idx%40 == 39 {
+		runC12CLI(ctx)
+		return
+	}
 	seed := ctx.Seed*1000003 + int64(ctx.Idx)
 	w, err := buildC12(seed)
 	if err != nil {
